@@ -28,8 +28,8 @@ class C17(Prop):
 
     def runs(self, tier):
         ns = [2, 3, 4, 8, 16]
-        seeds = range(1, 9) if tier == 'thorough' else range(1, 3)
-        iters = 400 if tier == 'thorough' else 120
+        seeds = range(1, 17) if tier == 'thorough' else range(1, 3)
+        iters = 1500 if tier == 'thorough' else 120
         return [(n, s + core.SEED * 100, iters) for n in ns for s in seeds] + ([(12, 77, iters)] if tier == 'thorough' else [])
 
     def one(self, exe, n, seed, iters):
